@@ -69,7 +69,7 @@ func init() {
 	core.Register(&core.Prop{
 		ID:    "C07",
 		Title: "Self-balancing trees stay balanced: logarithmic work in every state",
-		Cases: func(tier string) int { return tierN(tier, 4500, 150000) },
+		Cases: func(tier string) int { return tierN(tier, 12000, 240000) },
 		Run:   runC07,
 		Rule: "RedBlackTree, AVLTree, BTree (orders 3..12,16,32,64) under sorted, reverse, zig-zag, middle-out, block and random builds, drains in the same families, churn, sliding windows (up to 10^4 steps quick / 10^5 thorough), one-sided drains; n up to 3000 (quick) / 20000 (thorough). " +
 			"Every Get/Put/Remove is measured with a counting comparator against the stated per-call bound (n = larger of the sizes before and after); the exported structure is walked after every call while n <= 300 and every 16th call above. " +
